@@ -65,6 +65,16 @@ CLAIMED['C05'] = (
     'the reference model is part of the claim; where the documentation is silent (several differing spellings of one field) '
     'the model accepts either outcome; int-typed fields only; option groups are not combined in the quick tier',
     'symbolic execution of the real code against an executable reference model (CrossHair primitives + z3), path-tree exhaustion, concrete replay')
+CLAIMED['C11'] = (
+    'Bounded symbolic metamorphic model checking of Rule._parse_seq_args / _parse_map_args / ParserField.parse_value / '
+    'BaseParser.parse_addition / FunctionParser.parse_pos_type: containers (list, variable-length tuple, set, frozenset, '
+    'mapping keys and values, nested lists), data-class fields, extra keys and *args are filled with solver-chosen elements '
+    '(solver integers against a symbolic ge-threshold, an invalid and a convertible string); offenders are computed by '
+    'converting each element alone; under exclude the result must equal the strict result without the offenders, under '
+    'preserve the strict result with the offenders put back unchanged at their positions, and a required field is never '
+    'silently excluded; the 3 (x3 for mappings) policies are solver-picked; every tree is exhausted.',
+    'container sizes <= 3 (4 thorough); element type int with ge; nested depth 2',
+    'symbolic execution of the real code (CrossHair primitives + z3), metamorphic assertion, path-tree exhaustion, concrete replay')
 NOT_APPLICABLE = {}
 
 def main():
